@@ -77,6 +77,13 @@ class StmtMixin:
     def st_Expr(self, s, st):
         if isinstance(s.value, ast.Constant):
             return [(st, None)]
+        if isinstance(s.value, ast.Yield):
+            # generator: the sequence of yielded values is the function's result (ghost list _yield)
+            v = self.ev(s.value.value, st) if s.value.value is not None else VNone()
+            cur = st.vars["_yield"]
+            v = self.unopt_deep(v, cur.ety, s, st)
+            st.vars["_yield"] = VList(cur.ety, cur.n + 1, z3.Store(cur.a, cur.n, pack(coerce(v, cur.ety))))
+            return [(st, None)]
         self.ev(s.value, st)
         return [(st, None)]
 
@@ -361,9 +368,8 @@ class StmtMixin:
                         self.callee_frame(n, add_target)
                 elif isinstance(f, ast.Name):
                     self.callee_frame(n, add_target)
-            elif isinstance(n, ast.Subscript) and isinstance(n.ctx, ast.Load):
-                # reading a defaultdict may insert
-                pass
+            elif isinstance(n, ast.Yield):
+                names.add("_yield")
         return names, paths
 
     def callee_frame(self, call, add_target):
